@@ -261,6 +261,29 @@ def frames(prog: Program, rep: Report, rule: str) -> None:
         rep.check(rule, ffp.qual, f"state[{key}] receives the sample of the field of the same name", fields == {key}, what_bad=f"state variable {key} receives the sample of {sorted(fields) or '?'}", what_ok="same name", loc=ffp.loc(n))
 
 
+def sampling_on_every_path(prog: Program, rep: Report, rule: str) -> None:
+    """Must-pass-through: every path of Forcing.update that returns normally computes the level
+    lookup (z2s) and samples the fields at the particles (force_particles) - also at the last frame,
+    also on the between-frames path."""
+    from ..paths import enumerate_paths as _paths, path_calls
+    from ..program import inline_helpers
+
+    fi = inline_helpers(prog, prog.role_func("forcing", "update"))
+    missing = []
+    n = 0
+    for p_ in _paths(fi.node.body):
+        if p_.exit == "raise":
+            continue
+        n += 1
+        calls = [unparse(c.func) for c in path_calls(p_)]
+        need = [("z2s", any(c.split(".")[-1] == "z2s" for c in calls)), ("force_particles", any(c.endswith("force_particles") for c in calls))]
+        for name, ok in need:
+            if not ok:
+                missing.append((name, p_.describe()))
+    names = sorted({m_[0] for m_ in missing})
+    rep.check(rule, fi.qual, "every returning path computes the level lookup and samples the fields at the particles", not missing and n > 0, what_bad=f"{len(missing)} path(s) leave update without {names} (first: {missing[0][1] if missing else ''}): on that step the particles keep the levels / forcing values of the previous step", what_ok=f"{n} path(s)", loc=fi.loc())
+
+
 def forcing_state_stores(prog: Program):
     """Stores into the model state made by Forcing.force_particles: [(stmt, key text, {keys of
     self.fields the stored value was sampled from})], temporaries and the intermediate
@@ -569,6 +592,7 @@ def run(prog: Program, rep: Report, tier: str) -> None:
     from . import c14
 
     c14.step_attribute_freshness(prog, rep, "R02.6", roles=("forcing",))
+    sampling_on_every_path(prog, rep, "R02.6")
     trilinear_weights(prog, rep, "R02.2")
     z2s_analysis(prog, rep, "R02.3")
     z2s_call(prog, rep, "R02.3")
